@@ -26,7 +26,7 @@ def run(chk, keep=KEEP, pid='C04', script=None):
     if pid == 'C04':
         keep = tuple(keep) + ('idle-and-waiting-for-reboot', 'loop-error-announced', 'result-alignment-three-offers', 'run-explored')
     else:
-        keep = tuple(keep) + ('report-once',)
+        keep = tuple(keep) + ('report-once', 'report-events-per-app')
     if not (script and chk.parallel(script, parts(chk, pid), post_merge=runmon.post_merge if pid == 'C04' else None)):
         if chk.want('tail'):
             shapes = SHAPES[chk.tier]
